@@ -861,14 +861,40 @@ where
             if r.is_ok() {
                 s.push_str(&map_obs::<T>(a));
             }
+            // the other entry points of the same check: FlatWrap::from_wrapped_bytes and from_mut_bytes
+            let w = guarded(|| {
+                let wr = ::flatty::FlatWrap::<T, &[u8]>::from_wrapped_bytes(a.slice());
+                let same_kind = res_s(&wr.as_ref().map(|_| ()).map_err(|e| e.clone())) == res_s(&r);
+                let same_view = match &wr {
+                    Ok(w) => deep_s(&**w) == deep_s(unsafe { T::from_bytes_unchecked(a.slice()) }),
+                    Err(_) => true,
+                };
+                let mut copy = Arena::new(off, a.slice(), 0x33);
+                let mr = T::from_mut_bytes(copy.slice_mut()).map(|_| ());
+                let same_mut = res_s(&mr) == res_s(&r);
+                if same_kind && same_view && same_mut { "same".to_string() } else { format!("DIFF:{}:{}:{}", same_kind, same_view, same_mut) }
+            });
+            write!(s, " wrap={}", w).unwrap();
             s
         })
     }
     fn emplace(&self, off: usize, bytes: &[u8], spec: &Spec) -> String {
-        dual_mut(off, bytes, |a| {
+        let mut out = dual_mut(off, bytes, |a| {
             let r = T::new_in_place(a.slice_mut(), Dyn(spec)).map(|_| ());
             after_emplace::<T>(a, r)
-        })
+        });
+        // FlatWrap::new_in_place must do exactly what new_in_place does
+        let w = guarded(|| {
+            let mut b = Arena::new(off, bytes, 0x55);
+            let r1 = res_s(&::flatty::FlatWrap::<T, &mut [u8]>::new_in_place(b.slice_mut(), Dyn(spec)).map(|_| ()));
+            let mut c = Arena::new(off, bytes, 0x55);
+            let r2 = res_s(&T::new_in_place(c.slice_mut(), Dyn(spec)).map(|_| ()));
+            let v1 = res_s(&T::validate(b.slice()));
+            let v2 = res_s(&T::validate(c.slice()));
+            if r1 == r2 && v1 == v2 && b.guards_intact() { "same".to_string() } else { format!("DIFF:{}:{}:{}:{}", r1, r2, v1, v2) }
+        });
+        write!(out, " wrap={}", w).unwrap();
+        out
     }
     fn assign(&self, off: usize, bytes: &[u8], spec: &Spec) -> String {
         dual_mut(off, bytes, |a| {
